@@ -123,8 +123,10 @@ Trees are build by:
 It is assumed that all leaves are present. The tree will be corrupt when this is not the case.
 */
 func (t *tree) Load(leaves map[uint32][]byte) error {
-	// nothing to load
+	// nothing to load: the tree is empty.
+	// Load is also used to discard in-memory changes after a DB rollback, so the tree must not keep its old content.
 	if len(leaves) == 0 {
+		t.resetDefaults(t.leafSize)
 		return nil
 	}
 
